@@ -76,21 +76,27 @@ def refify(tree):
     return tree
 
 
-def parse_tree(ctx, formula, models=None, world=None):
+def parse_tree(ctx, formula, models=None, world=None, names=None):
     """Nested tuple of the tree FormulaParser.parse builds for the formula: ('op', text, operands...), reference texts,
-    literal values; ('raise', class) when parsing or reading the tree fails."""
+    literal values; ('raise', class) when parsing or reading the tree fails. `names`: the defined-name table handed to parse."""
     pm = ctx.mod('parser')
-    am = ctx.mod('ast_nodes')
-    models = dict(models if models is not None else operator_models(ctx))
-    models.setdefault(AN + 'RangeNode.eval', lambda self_, context: ('ref', self_.get('token').get('tvalue')))
     world = world if world is not None else World()
-    it = Interp(ctx.a, pm, {'p': Rec(cls='pkg:parser:FormulaParser'), 'f': formula}, inline_pkg=True, world=world)
-    out = it.run([ast.parse('return p.parse(f, {})').body[0]])
+    it = Interp(ctx.a, pm, {'p': Rec(cls='pkg:parser:FormulaParser'), 'f': formula, 'n': dict(names or {})}, inline_pkg=True, world=world)
+    out = it.run([ast.parse('return p.parse(f, n)').body[0]])
     if out.end == 'raise':
         return ('raise', out.value.ref.rpartition(':')[2] if isinstance(out.value, Ref) else repr(out.value))
     if out.end != 'return' or not isinstance(out.value, Rec):
         raise Unmodelled(f'FormulaParser.parse({formula!r}) ends in {out.end} {out.value!r}')
-    ev = Interp(ctx.a, am, {'node': out.value, 'context': Rec(cls=AN + 'EvalContext', ref='S!Z9', sheet='S', refsheet='S', namespace={})},
+    return tree_of_node(ctx, out.value, models, world)
+
+
+def tree_of_node(ctx, node, models=None, world=None):
+    """The nested tuple of a tree that already exists (a parse result, the .ast of a compiled cell)."""
+    am = ctx.mod('ast_nodes')
+    models = dict(models if models is not None else operator_models(ctx))
+    models.setdefault(AN + 'RangeNode.eval', lambda self_, context: ('ref', self_.get('token').get('tvalue')))
+    world = world if world is not None else World()
+    ev = Interp(ctx.a, am, {'node': node, 'context': Rec(cls=AN + 'EvalContext', ref='S!Z9', sheet='S', refsheet='S', namespace={})},
                 inline_pkg=True, world=world, call_models=models)
     res = ev.run([ast.parse('return node.eval(context)').body[0]])
     if res.end == 'raise':
